@@ -1199,7 +1199,11 @@ class UGrid(DimensionConvention[UGridKind, UGridIndex]):
         :func:`mask_from_face_indexes`
         """
         logger.info("Applying clip mask")
-        dataset = self.dataset
+        # Coordinate variables defined on the mesh dimensions (node, edge, or
+        # face coordinates named in a `coordinates` attribute, for example)
+        # need slicing just like data variables.
+        # `dataset_like()` turns them back in to coordinates at the end.
+        dataset = self.dataset.reset_coords()
         topology = self.topology
         work_path = pathlib.Path(work_dir)
 
@@ -1321,7 +1325,7 @@ class UGrid(DimensionConvention[UGridKind, UGridIndex]):
 
         logger.debug("Merging individual variables...")
         new_dataset = xarray.open_mfdataset(mfdataset_paths, lock=False)
-        return utils.dataset_like(dataset, new_dataset)
+        return utils.dataset_like(self.dataset, new_dataset)
 
     def get_all_geometry_names(self) -> list[Hashable]:
         topology = self.topology
